@@ -248,11 +248,18 @@ def run(ctx):
         cm = _checksum_cmp(fn, owner, 'checksum')
         des = [c for c in fn.calls() if c.name == 'deserialize']
         ctx.evaluations += 1
-        if cm and des and any(lib.edge_dominates(fn, cm[0].bb, t, des[0].bb) for t, rel in cm[0].edges() if rel == '=='):
-            ctx.ok('MPT-C20b', fn, 'deserialises only past blake3(buf) == manifest.checksum', line=cm[0].line)
+        exits = {ex['bb'] for ex in fn.ok_exits()}
+        if cm and any(fn.reachable(t) & exits for t, rel in cm[0].edges() if rel == '!='):
+            ctx.bad('MPT-C20b', fn, 'a checksum mismatch of the persisted track is tolerated: the mismatch edge reaches an Ok exit, so a corrupted track is silently served as an empty one '
+                    '(open succeeds, the committed cards are gone, verify passes)', line=cm[0].line, sink='Ok', detail='track-checksum-mismatch-tolerated')
+        elif cm and des and any(lib.edge_dominates(fn, cm[0].bb, t, des[0].bb) for t, rel in cm[0].edges() if rel == '=='):
+            ctx.ok('MPT-C20b', fn, 'deserialises only past blake3(buf) == manifest.checksum; the mismatch edge cannot reach Ok', line=cm[0].line)
         elif des and _verifying_callee(F, fn, owner, 'checksum', des[0].bb):
             vc, h = _verifying_callee(F, fn, owner, 'checksum', des[0].bb)
             ctx.touch(h, len(h.blocks))
+            if any(ex in fn.reachable(vc.bb) and not lib.call_success_dominates(fn, vc, ex) for ex in exits):
+                ctx.bad('MPT-C20b', fn, 'a failure of %s (checksum mismatch) is tolerated: an Ok exit is reachable past the call without its success' % h.name, line=vc.line, sink='Ok', detail='track-checksum-mismatch-tolerated')
+                continue
             ctx.ok('MPT-C20b', fn, 'deserialises only after %s succeeded, which returns Ok only on the edge blake3(buf) == the manifest checksum passed to it' % h.name, line=vc.line)
         else:
             ctx.bad('MPT-C20b', fn, 'track bytes are deserialised without the checksum-equal edge', detail='track-checksum')
